@@ -30,7 +30,7 @@ def run(ctx):
     mon = NonShearMonitor(ctx, lambda: current["id"], judge_gap=False).attach()
     try:
         import cij.core.phonon_contribution.nonshear as ns
-        ncases = ctx.pick(70, 20000)
+        ncases = ctx.pick(70, 100000)
         for i in range(ncases):
             case_id = f"case{i}"
             if not ctx.mine(i, case_id):
